@@ -226,6 +226,47 @@ def run(ctx: Ctx) -> None:
         rep.ok("C15.R4", parser.qname, f"{len(dis)} ill-formed stage lists are rejected with a DDSException", parser.loc())
     rep.floor("C15.R4", n4, 20)
 
+    # ---- R7 / R8 ------------------------------------------------------------------------------------------------------
+    from .c04 import commit_rules
+    rep.rule("C15.R7", "as C04.R1: a full evaluation commits its complete path map even when every blob is already stored - a run that stopped before "
+                       "the path commit is exactly what leaves blobs without paths")
+    commit_rules(ctx, top, "C15.R7")
+    rep.rule("C15.R8", "the stage order handed out by all_phases() is a fresh list on every call, or no caller changes it in place: a restricted run "
+                       "must not shorten the list that later evaluations take as 'all stages'")
+    ap = prog.funcs.get(STAGE_ENUM + ".all_phases")
+    if ap is None:
+        raise AnchorError(f"{STAGE_ENUM}.all_phases not found")
+    rets = [r for r in ap.own_nodes() if isinstance(r, ast.Return) and r.value is not None]
+    fresh = bool(rets) and all(isinstance(r.value, (ast.List, ast.ListComp, ast.Tuple)) or (isinstance(r.value, ast.Call) and unparse(r.value.func) in ("list", "tuple", "sorted"))
+                               for r in rets)
+    if fresh:
+        rep.ok("C15.R8", ap.qname, "all_phases() builds a new list on every call", ap.loc())
+    else:
+        MUT = {"append", "extend", "insert", "pop", "remove", "clear", "sort", "reverse"}
+        wit8 = []
+        for g in prog.funcs.values():
+            holders_ = set()
+            for n in g.own_nodes():
+                if isinstance(n, (ast.Assign, ast.AnnAssign)) and n.value is not None and isinstance(n.value, ast.Call) and unparse(n.value.func).endswith("all_phases"):
+                    for t in (n.targets if isinstance(n, ast.Assign) else [n.target]):
+                        if isinstance(t, ast.Name):
+                            holders_.add(t.id)
+            for n in g.own_nodes():
+                if isinstance(n, ast.Delete) and any(isinstance(t, ast.Subscript) and isinstance(t.value, ast.Name) and t.value.id in holders_ for t in n.targets):
+                    wit8.append(f"{g.loc(n)}: `{unparse(n, 50)}` in {g.name}")
+                elif isinstance(n, ast.Call) and isinstance(n.func, ast.Attribute) and n.func.attr in MUT and isinstance(n.func.value, ast.Name) and n.func.value.id in holders_:
+                    wit8.append(f"{g.loc(n)}: `{unparse(n, 50)}` in {g.name}")
+                elif isinstance(n, (ast.Assign, ast.AugAssign)) and any(isinstance(t, ast.Subscript) and isinstance(t.value, ast.Name) and t.value.id in holders_
+                                                                         for t in (n.targets if isinstance(n, ast.Assign) else [n.target])):
+                    wit8.append(f"{g.loc(n)}: `{unparse(n, 50)}` in {g.name}")
+        if wit8:
+            rep.bad("C15.R8", ap.qname, "the shared stage list returned by all_phases() is never changed in place", ap.loc(rets[0]) if rets else ap.loc(),
+                    [f"{ap.loc(rets[0]) if rets else ap.loc()}: all_phases() returns `{unparse(rets[0].value, 40) if rets else '?'}` (one list object for the whole process)"] + wit8 + [
+                     "after a run restricted to [analysis], the list is one element long for the rest of the process: every later 'full' evaluation stops after the analysis and returns None"],
+                    "shared-stage-list", what="a restricted run truncates the process-wide stage list")
+        else:
+            rep.ok("C15.R8", ap.qname, "all_phases() returns a shared list, and no caller changes it in place", ap.loc())
+
     # ---- R6: an evaluation leaves no module-level state behind ------------------------------------------------------
     rep.rule("C15.R6", "every module global that an evaluation function sets to a value is reset on every exit (normal or exceptional): "
                        "nothing a restricted run computed can be picked up by a later evaluation")
